@@ -485,6 +485,7 @@ func (e *erasureCodingPartStore) newPartReader(ctx context.Context, tx database.
 			available := 0
 			dataBytes := 0
 			seenAny := false
+			ended := 0
 			for i := 0; i < e.totalShards; i++ {
 				if readers[i] == nil {
 					continue
@@ -493,6 +494,7 @@ func (e *erasureCodingPartStore) newPartReader(ctx context.Context, tx database.
 				_, err := io.ReadFull(readers[i], fh)
 				if err != nil {
 					if errors.Is(err, io.EOF) || errors.Is(err, io.ErrUnexpectedEOF) {
+						ended++
 						closeReaderAt(i)
 						healShards[i] = true
 						continue
@@ -527,7 +529,11 @@ func (e *erasureCodingPartStore) newPartReader(ctx context.Context, tx database.
 				shards[i] = payload
 				available++
 			}
-			if !seenAny {
+			// The part ends when no shard shows another frame. Bytes behind the last
+			// frame of a few shards must not turn that into a failed stripe: when no
+			// valid frame is in sight and enough shards to carry a stripe are at their
+			// end, the shards that still show something are the damaged ones.
+			if !seenAny || (available == 0 && ended >= e.dataShards) {
 				closeHealingWriters(nil)
 				_ = pw.Close()
 				return
